@@ -214,7 +214,7 @@ class Writer(object):
             else:
                 alts = ['n:' + a for a in num_spellings(v) if STRICT_DEC.match(a)]
                 if unit is None:
-                    alts.append(('raw', int(v) if v == int(v) and abs(v) < 2 ** 53 else v))
+                    alts.append(('raw', int(v) if v == int(v) and abs(v) < 2 ** 53 and not (v == 0 and str(v).startswith('-')) else v))
                 t = sp(p + '.num', alts)
                 if isinstance(t, tuple):
                     return t[1]
